@@ -110,6 +110,7 @@ def simulate (g : Group) (phase cause : String) (notif : List Nat) (at? : Option
     | "parked" => m.act c (.recvOff 2)
     | "parkedfut" => m.act c (.recvOff 2)
     | "queued" => (List.range nreq).foldl (fun m j => m.acts c [.recvInline, .inlineReturn (some (10 + j))]) m
+    | "backlog" => (List.range nreq).foldl (fun m j => m.acts c [.recvInline, .inlineReturn (some (10 + j))]) m
     | _ => m
   -- the strike
   let m := if isCancelCause g cause && phase != "connecting" then m.act c .parentCancel else m
